@@ -10,6 +10,7 @@ import sys
 import time
 
 V = os.path.dirname(os.path.dirname(os.path.abspath(__file__)))
+REPO = os.environ.get("VERIF_REPO", "/repo")      # a scratch copy of the repository when run inside an isolated snapshot (vp run --with-repo)
 
 
 def sh(cmd, **kw):
@@ -25,12 +26,12 @@ def main():
     d = os.path.abspath(args[0])
     meta = json.load(open(os.path.join(d, "meta.json"))) if os.path.exists(os.path.join(d, "meta.json")) else {}
     props = args[1:] or [meta.get("property")]
-    st = sh(["git", "-C", "/repo", "status", "--porcelain"]).stdout.strip()
+    st = sh(["git", "-C", REPO, "status", "--porcelain"]).stdout.strip()
     if st:
-        print("refusing: /repo is not clean:\n" + st)
+        print("refusing: the repository is not clean:\n" + st)
         sys.exit(2)
     patch = os.path.join(d, "patch.diff")
-    r = sh(["git", "-C", "/repo", "apply", patch])
+    r = sh(["git", "-C", REPO, "apply", patch])
     if r.returncode != 0:
         print("patch does not apply:", r.stderr[-500:])
         sys.exit(2)
@@ -50,11 +51,11 @@ def main():
             for l in lines[:8]:
                 print("   ", l[:260])
     finally:
-        sh(["git", "-C", "/repo", "checkout", "--", "."])
+        sh(["git", "-C", REPO, "checkout", "--", "."])
         for ev, text in saved.items():      # evidence belongs to the unchanged tree
             open(ev, "w").write(text)
         sh([sys.executable, os.path.join(V, "tools", "xlate_run.py")])      # lean/Yarel/Gen back to what the unchanged tree says
-        left = sh(["git", "-C", "/repo", "status", "--porcelain"]).stdout.strip()
+        left = sh(["git", "-C", REPO, "status", "--porcelain"]).stdout.strip()
         if left:
             print("WARNING: /repo not clean after revert:\n" + left)
     out = os.path.join(d, "detection_%s.json" % tier)
